@@ -81,6 +81,14 @@ def run(ctx):
                         (dc(op="prg", n=8, data_seed=77, alpha=1.4), {"kind": "singletons"}),
                         (dc(op="prg", n=6, data_seed=78, alpha=1.0, outlier_prob=0.3), {"kind": "all", "outliers": True})]
     kernelcheck.run_orbit_classes(ctx, orbit_specs, max_leaves=400000 if ctx.tier == "quick" else 4000000)
+    rc = random.Random(ctx.sub("column"))
+    col_specs = [(dc(op="prg", n=12, data_seed=rc.randrange(1 << 30), alpha=rc.choice([0.6, 1.0, 1.8]), style="gauss", grid=4), rc.randrange(1 << 30), "singletons"),
+                 (dc(op="prg", n=17, data_seed=rc.randrange(1 << 30), alpha=rc.choice([0.6, 1.0, 1.8]), style="binom", grid=5, samples=2), rc.randrange(1 << 30), "pairs")]
+    if ctx.tier != "quick":
+        for n_ in (12, 13, 13, 16, 16, 20, 24):
+            col_specs.append((dc(op="prg", n=n_, data_seed=rc.randrange(1 << 30), alpha=rc.choice([0.3, 1.0, 2.5]), style=rc.choice(["gauss", "binom", "peaked"]), grid=rc.choice([3, 5]),
+                                 outlier_prob=rc.choice([0.0, 0.0, 0.1])), rc.randrange(1 << 30), rc.choice(["singletons", "pairs"])))
+    kernelcheck.run_columns(ctx, col_specs)
     rs = random.Random(ctx.sub("statcfg"))
     stat_cfgs = [dc(op=op_, n=5, style=rs.choice(["binom", "gauss"]), grid=rs.choice([7, 11]), data_seed=rs.randrange(1 << 30), alpha=rs.choice([0.5, 1.0, 2.0]),
                     outlier_prob=rs.choice([0.0, 0.1])) for op_ in ("dp", "prg")]
